@@ -2,7 +2,7 @@
 (* A model of Linux policy routing, sufficient for C13.                                       *)
 (*                                                                                            *)
 (* A network namespace is a record                                                            *)
-(*   links  : set of [name, idx, kind, peer]          (peer = ifindex of a veth peer, 0 = none) *)
+(*   links  : set of [name, idx, kind, peer, mac]     (peer = ifindex of a veth peer, 0 = none) *)
 (*   addrs  : set of [dev, ip, len, scope]                                                    *)
 (*   rules  : set of [fam, prio, src, dst, iif, oif, table, proto]                            *)
 (*   routes : set of [table, dst, dev, gw, scope, metric, type, proto]                        *)
